@@ -179,6 +179,51 @@ def _run_once(actor_set: list[str], strategy: Any, mode: str) -> tuple[Any, dict
         return s, info
     tag_schema = pa.schema([pa.field("tag", pa.string(), nullable=False)])
 
+    # -- extra observability: when did the session leave the registry, when was its lock taken ------
+    class _LoggingDict(dict):  # type: ignore[type-arg]
+        def pop(self, *a: Any, **k: Any) -> Any:
+            had = a and a[0] in self
+            r = super().pop(*a, **k)
+            if had:
+                s.log("evicted")
+            return r
+
+        def __delitem__(self, key: Any) -> None:
+            super().__delitem__(key)
+            s.log("evicted")
+
+        def clear(self) -> None:
+            had = bool(self)
+            super().clear()
+            if had:
+                s.log("evicted")
+
+    class _LoggingLock:
+        def __init__(self, inner: Any) -> None:
+            self._inner = inner
+
+        def acquire(self, *a: Any, **k: Any) -> Any:
+            ok = self._inner.acquire(*a, **k)
+            if ok:
+                s.log("session_lock_acquired")
+            return ok
+
+        def release(self) -> None:
+            self._inner.release()
+
+        def __enter__(self) -> Any:
+            return self.acquire()
+
+        def __exit__(self, *exc: Any) -> None:
+            self.release()
+
+        def __getattr__(self, name: str) -> Any:
+            return getattr(self._inner, name)
+
+    for entry in registry._entries.values():
+        entry.lock = _LoggingLock(entry.lock)
+    registry._entries = _LoggingDict(registry._entries)
+
     def req(method: str, tag: str) -> Any:
         return httpdrv.call(app, "POST", f"/{method}", {**H, "VGI-Session": token}, httpdrv.request_body(method, tag_schema, {"tag": tag}))
 
@@ -256,11 +301,28 @@ def _judge(chk: Check, actor_set: list[str], mode: str, s: Any, info: dict[str, 
     closes = 0
     in_close = False
     chk.hit("events_logged", len(s.events))
-    for ev in s.events:
+    evicted_at: int | None = None
+    last_lock_acq: dict[str, int] = {}
+    for idx, ev in enumerate(s.events):
         actor, kind = ev[0], ev[1]
         who = actor.rstrip("0123456789")
+        if kind == "evicted":
+            if evicted_at is None:
+                evicted_at = idx
+            continue
+        if kind == "session_lock_acquired":
+            last_lock_acq[actor] = idx
+            chk.hit("lock_acquisitions_logged")
+            continue
         if kind == "dispatch_begin":
             chk.hit("dispatch_observed")
+            acq = last_lock_acq.get(actor)
+            if evicted_at is not None and acq is not None and acq > evicted_at:
+                chk.violation(
+                    f"dispatch_admitted_after_eviction:request={who}",
+                    "a request took the session lock after the session had left the registry (closed / expired / evicted) and was still dispatched",
+                    wit,
+                )
             if open_disp:
                 chk.violation("overlapping_dispatch", "two requests dispatch against the same session at once", wit)
             if close_started_by is not None:
@@ -338,7 +400,7 @@ def run_shard(job: dict[str, Any]) -> dict[str, Any]:
 
 def main(tier: str, seed: int) -> int:
     chk = Check(PID, tier, seed, rule=RULE)
-    chk.require("events_logged", "dispatch_observed", "close_observed", "session_ended", "preempted_schedules")
+    chk.require("events_logged", "dispatch_observed", "close_observed", "session_ended", "preempted_schedules", "lock_acquisitions_logged")
     chk.assumptions = [
         "shim Lock/RLock have threading semantics; virtual clock replaces time.time in _sticky.py only",
         "a 'dispatch' is the service method running with ctx.session bound to the state; close_it counts as dispatching until it calls close_session",
